@@ -37,7 +37,7 @@ package polling
 //@     p.Store.latestCertificate.GPBFTInstance + 1 >= p.NextInstance && p.Store.latestCertificate.GPBFTInstance < 18446744073709551615)
 
 //@ func (*Poller).CatchUp
-//@   property C20
+//@   property C20 C16
 //@   requires storeNotBehind(p) && isTableFor(p.PowerTable, p.NextInstance)
 //@   modifies auto
 //@   ensures[holds_the_table_of_its_next_instance] isTableFor(p.PowerTable, p.NextInstance)
